@@ -326,7 +326,7 @@ func drawCase(t *rapid.T) Case {
 	if c.Big {
 		maxDocs = 6
 	}
-	n := rapid.SampledFrom([]int{0, 1, 2, 3, 4, 5, 6, 6, 7, 8, 8, 9, 10, 12, 14, 18, 25}).Draw(t, "ndocs")
+	n := rapid.SampledFrom([]int{0, 2, 3, 4, 5, 6, 6, 7, 8, 8, 9, 10, 10, 12, 14, 18, 25}).Draw(t, "ndocs")
 	if n > maxDocs {
 		n = maxDocs
 	}
@@ -354,6 +354,7 @@ const (
 	sigGroupLimit  = "C08/group/member-limit-with-parent-order"
 	sigAggNot      = "C08/agg/not-at-top-of-aggregate-filter"
 	sigGroupOffset = "C08/group/offset-without-limit-selects-nothing"
+	sigAvgShared   = "C08/agg/avg-shares-sum-count-across-limits"
 )
 
 func truncOrder(o []OrderKey) []OrderKey {
@@ -371,6 +372,17 @@ func applyAvoid(c *Case) {
 		}
 		for i := range c.Q.Aggs {
 			c.Q.Aggs[i].Sub.Order = truncOrder(c.Q.Aggs[i].Sub.Order)
+		}
+	}
+	if rec.IsKnown(sigAvgShared) {
+		seen := map[string]bool{}
+		for i := range c.Q.Aggs {
+			if a := &c.Q.Aggs[i]; a.Fn == "_avg" {
+				if seen[a.Field] {
+					a.Fn = "_sum"
+				}
+				seen[a.Field] = true
+			}
 		}
 	}
 	if rec.IsKnown(sigMinMaxNull) {
